@@ -44,6 +44,15 @@ Definition R_fixed (n len : nat) (stored : nat -> car) (call : option (nat -> ca
            (l : option car) : M :=
   madd (fixed_base n len stored call) (learned_part l).
 
+(* FixedNoiseGaussianLikelihood.get_fantasy_likelihood(noise=new): the likelihood of the n old points
+   followed by the m appended points (the order of ExactGP.get_fantasy_model's joint inputs) stores
+   [old noise; new noise]; the learned part is carried over unchanged.  GaussianLikelihood's fantasy
+   likelihood is a copy (R_homo of the same sigma^2). *)
+Definition cat_fn (n : nat) (old new : nat -> car) : nat -> car :=
+  fun i => if Nat.ltb i n then old i else new (i - n)%nat.
+Definition R_fantasy (n m : nat) (old new : nat -> car) (l : option car) : M :=
+  R_fixed (n + m) (n + m) (cat_fn n old new) None l.
+
 (* the variant in which the call-time kwarg is forwarded to the learned-noise module as well
    (the pinned snapshot of /repo): the learned module then returns diag(call) again *)
 Definition R_fixed_forwarding (n len : nat) (stored : nat -> car) (call : option (nat -> car))
@@ -117,9 +126,14 @@ Definition fn_of_list (l : list Qc) : nat -> Qc := fun i => nth i l 0%Qc.
 Definition opt_fn (o : option (list Qc)) : option (nat -> Qc) :=
   match o with Some l => Some (fn_of_list l) | None => None end.
 
+(* stored noise after a sequence of get_fantasy_likelihood calls: old ++ new_1 ++ ... ++ new_k *)
+Definition fantasy_stored (old : list Qc) (news : list (list Qc)) : list Qc :=
+  fold_left (fun acc nw => acc ++ nw) news old.
+
 Inductive lik_cfg :=
 | LHomo (s2 : Qc)
 | LFixed (stored : list Qc) (call : option (list Qc)) (learned : option Qc)
+| LFantasy (old : list Qc) (news : list (list Qc)) (learned : option Qc)
 | LMulti (t r : nat) (has_task interleaved : bool) (d : list Qc) (F : list (list Qc))
          (glob : option Qc).
 
@@ -129,6 +143,12 @@ Definition R_of (N : nat) (c : lik_cfg) : @M QcF :=
   | LHomo s2 => R_homo (K:=QcF) s2
   | LFixed stored call l =>
       R_fixed (K:=QcF) N (length stored) (fn_of_list stored) (opt_fn call) l
+  | LFantasy old news l =>
+      (* one get_fantasy_likelihood call per element of news, each through the cat_fn definition *)
+      let stored := fold_left (fun (acc : nat * (nat -> Qc)) nw =>
+                                 ((fst acc + length nw)%nat, cat_fn (K:=QcF) (fst acc) (snd acc) (fn_of_list nw)))
+                              news (length old, fn_of_list old) in
+      R_fixed (K:=QcF) N (fst stored) (snd stored) None l
   | LMulti t r ht il d F g =>
       R_mt (K:=QcF) (N / t) t r ht il (fn_of_list d) (of_list (K:=QcF) F) g
   end.
